@@ -21,7 +21,7 @@ import sys
 import tempfile
 from concurrent.futures import ThreadPoolExecutor
 
-ROOT = "/verif"
+ROOT = os.path.dirname(os.path.dirname(os.path.abspath(__file__)))
 REPO = "/repo"
 FILE_PROPS = {}
 for line in open(os.path.join(ROOT, "properties.jsonl")):
